@@ -375,7 +375,8 @@ func (a *List) M__eq__(other Object) (Object, error) {
 	if len(a.Items) != len(b.Items) {
 		return False, nil
 	}
-	for i := range a.Items {
+	// comparing the items can run code which changes the lists
+	for i := 0; i < len(a.Items) && i < len(b.Items); i++ {
 		eq, err := Eq(a.Items[i], b.Items[i])
 		if err != nil {
 			return nil, err
@@ -384,7 +385,7 @@ func (a *List) M__eq__(other Object) (Object, error) {
 			return False, nil
 		}
 	}
-	return True, nil
+	return NewBool(len(a.Items) == len(b.Items)), nil
 }
 
 func (a *List) M__ne__(other Object) (Object, error) {
@@ -395,7 +396,8 @@ func (a *List) M__ne__(other Object) (Object, error) {
 	if len(a.Items) != len(b.Items) {
 		return True, nil
 	}
-	for i := range a.Items {
+	// comparing the items can run code which changes the lists
+	for i := 0; i < len(a.Items) && i < len(b.Items); i++ {
 		eq, err := Eq(a.Items[i], b.Items[i])
 		if err != nil {
 			return nil, err
@@ -404,7 +406,7 @@ func (a *List) M__ne__(other Object) (Object, error) {
 			return True, nil
 		}
 	}
-	return False, nil
+	return NewBool(len(a.Items) != len(b.Items)), nil
 }
 
 type sortable struct {
